@@ -1,11 +1,7 @@
 """C11 — jacobian monomial and invariance of the rescaling (kernel engine)."""
-from .kernels import run_c11_jacobian
+from .kernels import run_c11_jacobian, run_rescaling
 
 
 def run(ctx):
     run_c11_jacobian(ctx)
-    try:
-        from .kernels import run_rescaling
-        run_rescaling(ctx, "C11")
-    except ImportError:
-        pass
+    run_rescaling(ctx, "C11")
